@@ -139,3 +139,25 @@ def canon(obj):
 
 def dumps(obj) -> str:
     return json.dumps(canon(obj), sort_keys=True, separators=(",", ":"))
+
+
+def apply_env(env):
+    """per-run process environment chosen by the seed (part of the case, so a replay restores it).
+    logging: 'off' (logging.disable), 'debug' (everything enabled, records FORMATTED into an in-memory sink), 'warning'"""
+    import io
+    import logging
+
+    mode = (env or {}).get("logging", "off")
+    if mode == "off":
+        logging.disable(logging.CRITICAL)
+        return
+    logging.disable(logging.NOTSET)
+    root = logging.getLogger()
+    for h in list(root.handlers):
+        root.removeHandler(h)
+    sink = io.StringIO()
+    h = logging.StreamHandler(sink)
+    h.setFormatter(logging.Formatter("%(asctime)s %(name)s %(levelname)s %(message)s"))
+    root.addHandler(h)
+    root.setLevel(logging.DEBUG if mode == "debug" else logging.WARNING)
+    logging.raiseExceptions = False  # a broken log call must not print to stderr; it must not change behaviour either
